@@ -5,6 +5,8 @@ From Coq Require Import List String Bool ZArith.
 From Helm Require Import Engine.Types Engine.Eff Engine.Ops Engine.Cluster Engine.Seq
                          Engine.DryRun Engine.DryRunProofs Gen.DryRunSpellings.
 From Helm Require Import Engine.DryOps Engine.DryOpsProofs.
+From Helm Require Import Engine.DryFlow Engine.DryFlowModel Engine.DryFlowCheck Gen.DryFlow.
+From Helm Require Import Engine.DryFlowFollowsInstall Engine.DryFlowFollowsUpgrade Engine.DryFlowFollowsRest.
 Import ListNotations.
 Local Open Scope string_scope.
 
@@ -278,3 +280,142 @@ Example C06_rich_example :
   existsb is_lookup (yes_trace (x_template "rel" "default" ex_cfg false true (ex_xflags [] "server") ex_chart)) = true.
 Proof. repeat split; vm_compute; reflexivity. Qed.
 Print Assumptions C06_rich_example.
+
+(* ================================================================== *)
+(* The dry-run FLOW of pkg/action, read from the Go source on this run (Gen/DryFlow.v: every
+   function reachable from the four entry points, with its calls on the kube client, the waiter,
+   the storage driver, discovery, the template engine, the post-renderer, the conditions on
+   options they are under, the early returns, the swap of the back ends under ClientOnly).
+   [analyse flow f env] over-approximates what a path through f can reach when the options are
+   known only as far as [env] says (everything else, and every data-dependent test, goes both
+   ways; a call the translator cannot classify may do everything). *)
+
+(* (1) with the DryRun boolean set, or DryRunOption one of the spellings read from isDryRun on
+   this run - EVERY other option unknown -: no path through Install.RunWithContext /
+   Upgrade.RunWithContext (installCRDs, CreateNamespace, replaceRelease, Releases.Create, hooks,
+   failRelease with its nested uninstall / rollback ... included) reaches a mutating call on the
+   configured kube client or a write of the configured storage driver; the same for Rollback.Run
+   and Uninstall.Run with their boolean *)
+Theorem C06_flow_dry_run_writes_nothing :
+  forallb (fun e => writes_nothing (analyse flow "Install.RunWithContext" e)) (dry_envs install_dry_spellings)
+  && forallb (fun e => writes_nothing (analyse flow "Upgrade.RunWithContext" e)) (dry_envs upgrade_dry_spellings)
+  && writes_nothing (analyse flow "Rollback.Run" (mkDE (flags_of [("DryRun", true)]) OptAny [] false))
+  && writes_nothing (analyse flow "Uninstall.Run" (mkDE (flags_of [("DryRun", true)]) OptAny [] false)) = true.
+Proof. exact flow_dry_fact. Qed.
+Print Assumptions C06_flow_dry_run_writes_nothing.
+
+(* ... and the analysis is not blind: with the option clear all four can mutate and write *)
+Theorem C06_flow_real_run_writes :
+  forallb (fun f => let s := analyse flow f (mkDE (flags_of [("DryRun", false)]) (OptIs "") install_dry_spellings false) in
+                    may_kube_mut s && may_store_write s)
+          ["Install.RunWithContext"; "Upgrade.RunWithContext"; "Rollback.Run"; "Uninstall.Run"] = true.
+Proof. exact flow_not_dry_fact. Qed.
+Print Assumptions C06_flow_real_run_writes.
+
+(* the template engine is built from the REST config only when DryRunOption asks for the server *)
+Theorem C06_flow_lookups :
+  forallb (fun f =>
+    negb (may_lookup (analyse flow f (mkDE (flags_of [("DryRun", true)]) (OptNotIn ["server"; "none"; "false"]) install_dry_spellings false)))
+    && negb (may_lookup (analyse flow f (mkDE (flags_of []) (OptIs "client") install_dry_spellings false)))
+    && negb (may_lookup (analyse flow f (mkDE (flags_of []) (OptIs "true") install_dry_spellings false)))
+    && may_lookup (analyse flow f (mkDE (flags_of []) (OptIs "server") install_dry_spellings false)))
+          ["Install.RunWithContext"; "Upgrade.RunWithContext"] = true.
+Proof. exact flow_lookup_fact. Qed.
+Print Assumptions C06_flow_lookups.
+
+(* (2) ClientOnly set, everything else unknown: no path reaches the configured kube client at all
+   (reads included), discovery, or a storage write; ClientOnly + dry run + a DryRunOption that
+   does not ask for the server: no path reaches the configured cluster or storage in any way *)
+Theorem C06_flow_client_only :
+  (let s := analyse flow "Install.RunWithContext" (mkDE (flags_of [("ClientOnly", true)]) OptAny install_dry_spellings false) in
+   writes_nothing s && negb (may_kube_read s) && negb (may_getter_read s))
+  && touches_nothing (analyse flow "Install.RunWithContext"
+        (mkDE (flags_of [("ClientOnly", true); ("DryRun", true)]) (OptNotIn ["server"; "none"; "false"]) install_dry_spellings false))
+  && forallb (fun o => touches_nothing (analyse flow "Install.RunWithContext"
+        (mkDE (flags_of [("ClientOnly", true)]) (OptIs o) install_dry_spellings false))) ["client"; "true"] = true.
+Proof. exact flow_client_only_fact. Qed.
+Print Assumptions C06_flow_client_only.
+
+(* (3) helm template: the assignments newTemplateCmd makes to the Install action before
+   runInstall, as read from pkg/cmd/template.go on this run, are the model's [template_flags];
+   no other boolean option is assigned; runInstall validates --dry-run before RunWithContext and
+   accepts exactly the values the model accepts *)
+Theorem C06_flow_template_plumbing :
+  forall (validate include_crds : bool) (cli : xflags),
+  plumbed template_assigns (cli_of validate include_crds) "DryRun" None
+    = Some (Some (fb (template_flags validate include_crds cli) "DryRun")) /\
+  plumbed template_assigns (cli_of validate include_crds) "ClientOnly" None
+    = Some (Some (fb (template_flags validate include_crds cli) "ClientOnly")) /\
+  plumbed template_assigns (cli_of validate include_crds) "Replace" None
+    = Some (Some (fb (template_flags validate include_crds cli) "Replace")) /\
+  plumbed template_assigns (cli_of validate include_crds) "IncludeCRDs" None
+    = Some (Some (fb (template_flags validate include_crds cli) "IncludeCRDs")) /\
+  plumbed_opt template_assigns (xf_opt cli) = Some (xf_opt (template_flags validate include_crds cli)) /\
+  forallb (fun f => match plumbed template_assigns (fun _ => false) f None with
+                    | None => true
+                    | Some _ => mem f ["DryRun"; "ClientOnly"; "Replace"; "IncludeCRDs"]
+                    end)
+          (match find (fun kv => String.eqb (fst kv) "Install") flow_options with Some kv => snd kv | None => ["?"] end) = true /\
+  template_validates_dry_run = true /\
+  (forall s, dry_opt_allowed s = mem s template_allowed_dry_run).
+Proof. exact flow_template_fact. Qed.
+Print Assumptions C06_flow_template_plumbing.
+
+(* the richer model follows the flow: the labels of the effects of a model run (scripted world:
+   canned history, every call succeeds) are a path through the Go entry point under the model's
+   options - every subset of the listed options x DryRunOption x configuration x history *)
+(* [install_ok tbl spell fail g fl c h] (Engine/DryFlowModel.v) is
+     follows tbl "Install.RunWithContext" (env_of spell fl) (state_of g)
+             (items (model_trace h fail (x_install "rel" "default" g fl c)))
+   and likewise upgrade_ok / rollback_ok / uninstall_ok; quoted, not unfolded, so that the kernel
+   compares the statements syntactically *)
+Theorem C06_flow_model_follows_install :
+  (forall on opt g h, In on (subsets install_flags_main) -> In opt sc_opts3 -> In g sc_cfgs -> In h install_hists ->
+     install_ok flow install_dry_spellings None g (mkXF on opt 0 0) (sc_chart sc_crds 1) h = true) /\
+  (forall on opt, In on (subsets install_flags_more) -> In opt sc_opts2 ->
+     install_ok flow install_dry_spellings None (mkXG true true) (mkXF on opt 0 0) (sc_chart sc_crds 1) [] = true).
+Proof. split; [exact install_main_follows | exact install_more_follows]. Qed.
+Print Assumptions C06_flow_model_follows_install.
+
+Theorem C06_flow_model_follows_upgrade_rollback_uninstall :
+  (forall on opt g h, In on (subsets upgrade_flags) -> In opt sc_opts3 -> In g upgrade_cfgs -> In h upgrade_hists ->
+     upgrade_ok flow upgrade_dry_spellings None g (mkXF on opt 2 0) (sc_chart sc_crds 1) h = true) /\
+  (forall on v h, In on (subsets rollback_flags) -> In v [0; 1] -> In h sc_hists ->
+     rollback_ok flow [] None (mkXF on "" 2 v) h = true) /\
+  (forall on h, In on (subsets uninstall_flags) -> In h sc_hists ->
+     uninstall_ok flow [] None (mkXF on "" 0 0) h = true).
+Proof. split; [exact upgrade_follows | split; [exact rollback_follows | exact uninstall_follows]]. Qed.
+Print Assumptions C06_flow_model_follows_upgrade_rollback_uninstall.
+
+(* ... and with exactly the n-th effect of the run failing, for every n (error returns,
+   failRelease, the nested uninstall / rollback of --atomic) *)
+Theorem C06_flow_model_follows_single_failures :
+  (forall on opt, In on (subsets fail_install_flags) -> In opt [""; "server"] ->
+     install_fails_ok flow install_dry_spellings (mkXG true true) (mkXF on opt 0 0) (sc_chart sc_crds 1) [] = true) /\
+  (forall on opt, In on (subsets fail_upgrade_flags) -> In opt [""; "server"] ->
+     upgrade_fails_ok flow upgrade_dry_spellings (mkXG true false) (mkXF on opt 2 0) (sc_chart sc_crds 1)
+                      [sc_rel 1 SSuperseded; sc_rel 2 SDeployed] = true).
+Proof. split; [exact install_fail_follows | exact upgrade_fail_follows]. Qed.
+Print Assumptions C06_flow_model_follows_single_failures.
+
+(* the analysis flags a write before the bail-out and an unclassified helper on a dry path; a
+   DryRunOption the spelling table does not know leaves the run a real one; the matcher accepts
+   the plain dry-run install and rejects it with the namespace created before the bail-out, with
+   the reachability check missing, and a real run that stores the release without having asked
+   for the namespace *)
+Example C06_flow_examples :
+  may_store_write (analyse bad_flow "F" (mkDE (flags_of [("DryRun", true)]) OptAny [] false)) = true /\
+  may_kube_mut (analyse bad_flow "F" (mkDE (flags_of [("DryRun", true)]) OptAny [] false)) = false /\
+  writes_nothing (analyse opaque_flow "F" (mkDE (flags_of [("DryRun", true)]) OptAny [] false)) = true /\
+  writes_nothing (analyse opaque_flow "G" (mkDE (flags_of [("DryRun", true)]) OptAny [] false)) = false /\
+  writes_nothing (analyse flow "Install.RunWithContext" (mkDE (flags_of []) (OptIs "none") install_dry_spellings false)) = false /\
+  follows flow "Install.RunWithContext" (env_of install_dry_spellings (mkXF ["DryRun"; "CreateNamespace"] "" 0 0)) (state_of (mkXG false true))
+          [("KubeClient.IsReachable", true); ("KubeClient.Build", true); ("Helper.Get", true)] = true /\
+  follows flow "Install.RunWithContext" (env_of install_dry_spellings (mkXF ["DryRun"; "CreateNamespace"] "" 0 0)) (state_of (mkXG false true))
+          [("KubeClient.IsReachable", true); ("KubeClient.Build", true); ("Helper.Get", true); ("KubeClient.Create", true)] = false /\
+  follows flow "Install.RunWithContext" (env_of install_dry_spellings (mkXF ["DryRun"; "CreateNamespace"] "" 0 0)) (state_of (mkXG false true))
+          [("KubeClient.Build", true); ("Helper.Get", true)] = false /\
+  follows flow "Install.RunWithContext" (env_of install_dry_spellings (mkXF ["CreateNamespace"] "none" 0 0)) (state_of (mkXG false true))
+          [("KubeClient.IsReachable", true); ("Driver.Query", true); ("KubeClient.Build", true); ("Helper.Get", true); ("Driver.Create", true)] = false.
+Proof. exact flow_examples. Qed.
+Print Assumptions C06_flow_examples.
